@@ -107,3 +107,25 @@ Print Assumptions C15_preserves_wf.
 Print Assumptions C15_zero_length.
 Print Assumptions C15_preserves_sorted.
 Print Assumptions C15_degenerate_model.
+
+(* ---- int64 (second audit, N10; Model/Ops64.v lin64, Proofs/Lin64Proofs.v) ----
+   [lin64] is ApplyLinearCorrection with int64 subtractions (desired2 - desired1, actual2 - actual1), the truncating
+   float64 -> int64 conversions (outside int64 and for NaN: the amd64 result MinInt64 - implementation-defined in Go) and
+   a wrapping final addition.  Inside the domain of the theorems above (anchors and boundary within a day, slope in
+   [1/2, 2]) nothing wraps and every conversion is of a finite value below 2^50: [lin64] is [lin]. *)
+From Astisub Require Import Kit.Int64 Model.Ops64 Proofs.Lin64Proofs.
+Theorem C15_int64 : forall a1 d1 a2 d2 t : Z,
+  in_day a1 -> in_day d1 -> in_day a2 -> in_day d2 -> in_day t -> slope_ok a1 d1 a2 d2 ->
+  lin64 a1 d1 a2 d2 t = lin a1 d1 a2 d2 t /\ in_i64 (lin a1 d1 a2 d2 t).
+Proof. exact lin64_eq. Qed.
+Theorem C15_int64_list : forall a1 d1 a2 d2 l,
+  in_day a1 -> in_day d1 -> in_day a2 -> in_day d2 -> slope_ok a1 d1 a2 d2 ->
+  Forall (fun x => in_day (st x) /\ in_day (en x)) l ->
+  linear_correction64 a1 d1 a2 d2 l = linear_correction a1 d1 a2 d2 l.
+Proof. exact linear_correction64_eq. Qed.
+Example C15_int64_wraps :
+  lin64 0 (- 4611686018427387904) 4611686018427387904 4611686018427387905 1000 <>
+  lin 0 (- 4611686018427387904) 4611686018427387904 4611686018427387905 1000.
+Proof. exact lin64_wraps. Qed.
+Print Assumptions C15_int64.
+Print Assumptions C15_int64_list.
